@@ -444,7 +444,7 @@ def run(ctx):
         if not ctx.want(cid):
             continue
         r = ctx.rng("pow2", n0)
-        A = G.random_connected(r, n0, n0)
+        A = G.random_connected(r, n0, n0, extra_p=0.0)
         # a little denser than a tree, still sparse
         extra = np.triu(r.random((n0, n0)) < 4.0 / n0, 1)
         A = ((A + extra + extra.T) > 0).astype(np.int8)
